@@ -705,10 +705,23 @@ impl GRLParser {
         let mut parts = Vec::new();
         let mut current_part = String::new();
         let mut paren_count = 0;
+        // Inside a string literal (opened by this quote character) nothing separates conditions
+        let mut quote: Option<char> = None;
         let mut chars = clause.chars().peekable();
 
         while let Some(ch) = chars.next() {
+            if let Some(q) = quote {
+                if ch == q {
+                    quote = None;
+                }
+                current_part.push(ch);
+                continue;
+            }
             match ch {
+                '"' | '\'' => {
+                    quote = Some(ch);
+                    current_part.push(ch);
+                }
                 '(' => {
                     paren_count += 1;
                     current_part.push(ch);
